@@ -106,6 +106,56 @@ pub struct ParseError { pub unknown: String }
 pub assume_specification[ <RenameRule as PartialEq>::eq ](a: &RenameRule, b: &RenameRule) -> (r: bool)
     ensures r == (*a == *b);
 
+// char::to_ascii_uppercase / to_ascii_lowercase (std): the spec functions `upper` / `lower`
+pub assume_specification[ char::to_ascii_uppercase ](c: &char) -> (r: char)
+    ensures r == upper(*c);
+
+// ---- the PascalCase arm of the dependency's apply_to_field, VERIFIED against pascal_spec (the stub
+// below relies on it); extracted from the registry copy of serde-rename-rule pinned by Cargo.lock
+//@ EXTRACT-BLOCK crate=serde-rename-rule file=src/lib.rs in="impl RenameRule" fn=apply_to_field anchor="Self::PascalCase => {" body=1 props=C12,C01,C04,C06 as=apply_to_field_pascal_arm
+//@ SIGNATURE
+//@|fn apply_to_field_pascal_arm(field: &str) -> (r: String)
+//@|    ensures r@ == pascal_spec(field@),
+//@ LOOP 1 ITER=it
+//@|    invariant
+//@|        it.snapshot@.remaining() == field@,
+//@|        0 <= it.index@ <= field@.len(),
+//@|        pascal@ + pascal_from(field@.skip(it.index@), capitalize) == pascal_spec(field@),
+//@ AFTER `let mut capitalize = true;`
+//@|    proof {
+//@|        assert(field@.skip(0) =~= field@);
+//@|        assert(pascal@ + pascal_from(field@.skip(0), true) =~= pascal_spec(field@));
+//@|    }
+//@ BEFORE `if ch == '_' {`
+//@|    let ghost k = it.index@;
+//@|    let ghost before = pascal@;
+//@|    let ghost cap0 = capitalize;
+//@|    proof {
+//@|        assert(0 <= k < field@.len());
+//@|        assert(ch == field@[k]);
+//@|        assert(field@.skip(k)[0] == ch);
+//@|        assert(field@.skip(k).skip(1) =~= field@.skip(k + 1));
+//@|    }
+//@ LOOP-END 1
+//@|    proof {
+//@|        let rest = pascal_from(field@.skip(k + 1), capitalize);
+//@|        if ch == '_' {
+//@|            assert(pascal@ == before);
+//@|        } else if cap0 {
+//@|            assert(pascal@ == before.push(upper(ch)));
+//@|            assert(before + (seq![upper(ch)] + rest) =~= before.push(upper(ch)) + rest);
+//@|        } else {
+//@|            assert(pascal@ == before.push(ch));
+//@|            assert(before + (seq![ch] + rest) =~= before.push(ch) + rest);
+//@|        }
+//@|    }
+//@ AFTER-LOOP 1
+//@|    proof {
+//@|        assert(field@.skip(field@.len() as int) =~= Seq::<char>::empty());
+//@|        assert(pascal@ + Seq::<char>::empty() =~= pascal@);
+//@|    }
+//@ END
+
 impl RenameRule {
     #[verifier::external_body]
     pub fn apply_to_field(&self, field: &str) -> (r: String)
